@@ -15,7 +15,8 @@ use vp_engine::{pick, Isolation, Outcome, Property, Tier};
 use vp_rec::{FilterSpec, Kind, RecCollector, Shared, Stepper};
 
 const NT: usize = 4;
-const NC: usize = 4;
+/// collectors 0..=2: `Dispatch::new(recorder)`; 3: `Dispatch::from_static(recorder)`; 4: `Dispatch::none()`
+const NC: usize = 5;
 
 #[derive(Clone, Debug, Serialize, Deserialize, PartialEq)]
 enum Op {
@@ -29,6 +30,8 @@ enum Op {
     SetGlobal { t: u8, c: u8 },
     /// emit through macro callsite `cs` (0..=2 events, 3 span) on t
     Emit { t: u8, cs: u8 },
+    /// like Emit, but the receiving collector panics inside the callback; the thread catches it
+    EmitPanic { t: u8, cs: u8 },
     /// get_default / Dispatch::default() identity on t
     Query { t: u8 },
     /// thread t ends (its scopes unwind LIFO); a later op on t starts a fresh thread
@@ -79,9 +82,18 @@ struct World {
 impl World {
     fn dispatch(&mut self, t: usize, c: usize) -> Result<Dispatch, String> {
         if self.disp[c].is_none() {
+            if c == 4 {
+                self.disp[c] = Some(Dispatch::none());
+                return Ok(self.disp[c].clone().unwrap());
+            }
             let (d, s) = self.st.run(t, move |_| {
                 let (col, s) = RecCollector::new(c as u32, FilterSpec::accept_all(), false);
-                (Dispatch::new(col), s)
+                if c == 3 {
+                    let leaked: &'static RecCollector = Box::leak(Box::new(col));
+                    (Dispatch::from_static(leaked), s)
+                } else {
+                    (Dispatch::new(col), s)
+                }
             })?;
             s.take(); // creation-time calls (on_register_dispatch) are not emissions
             self.disp[c] = Some(d);
@@ -89,8 +101,13 @@ impl World {
         }
         Ok(self.disp[c].clone().unwrap())
     }
-    fn receiver(&self, t: usize) -> Option<u8> {
+    /// the collector the model selects (4 = the no-op dispatcher)
+    fn selected(&self, t: usize) -> Option<u8> {
         self.stacks[t].last().copied().or(self.global)
+    }
+    /// the recording collector that must see the emission, if any
+    fn receiver(&self, t: usize) -> Option<u8> {
+        self.selected(t).filter(|c| *c != 4)
     }
     /// drain logs: (collector, deliveries, foreign-thread calls)
     fn drain(&self) -> Vec<(u8, Vec<vp_rec::Call>)> {
@@ -179,8 +196,9 @@ fn run_case(case: &Case) -> Outcome {
                 // the emission inside the scope belongs to c, and only to c
                 let logs = w.drain();
                 let ev: Vec<(u8, usize)> = logs.iter().map(|(c, calls)| (*c, calls.iter().filter(|x| x.kind == Kind::Event).count())).filter(|x| x.1 > 0).collect();
-                if ev != vec![(c as u8, 1)] {
-                    fail!(i, "emission inside with_default misrouted", "deliveries {ev:?}, expected [({c}, 1)]");
+                let want_ev: Vec<(u8, usize)> = if c == 4 { vec![] } else { vec![(c as u8, 1)] };
+                if ev != want_ev {
+                    fail!(i, "emission inside with_default misrouted", "deliveries {ev:?}, expected {want_ev:?}");
                 }
                 classes.push("panic_scope".into());
             }
@@ -203,12 +221,22 @@ fn run_case(case: &Case) -> Outcome {
                     w.global = Some(c as u8);
                 }
             }
-            Op::Emit { t, cs } => {
+            Op::Emit { t, cs } | Op::EmitPanic { t, cs } => {
                 let t = t as usize % NT;
-                if let Err(e) = w.st.run(t, move |_| emit(cs % 4)) {
-                    fail!(i, "panic: emit", "{e}");
-                }
+                let panicking = matches!(op, Op::EmitPanic { .. });
                 let want = w.receiver(t);
+                if panicking {
+                    if let Some(s) = want.and_then(|c| w.shared[c as usize].as_ref()) {
+                        s.panic_next.store(true, std::sync::atomic::Ordering::SeqCst);
+                        classes.push("collector_panicked_in_callback".into());
+                    }
+                }
+                let expect_panic = panicking && want.is_some();
+                match w.st.run(t, move |_| std::panic::catch_unwind(|| emit(cs % 4)).is_err()) {
+                    Ok(p) if p == expect_panic => {}
+                    Ok(p) => fail!(i, "panic: emit", "emission panicked={p}, expected panicked={expect_panic}"),
+                    Err(e) => fail!(i, "panic: emit", "{e}"),
+                }
                 let logs = w.drain();
                 let is_span = cs % 4 == 3;
                 let got: Vec<(u8, usize)> = logs
@@ -254,6 +282,9 @@ fn run_case(case: &Case) -> Outcome {
                     Err(e) => fail!(i, "panic: get_default", "{e}"),
                 };
                 let want = w.receiver(t).map(|c| c as u32);
+                if w.selected(t) == Some(4) {
+                    classes.push("noop_dispatcher_scoped".into());
+                }
                 if cur != Some(want) {
                     fail!(i, "get_current identity", "get_current -> {cur:?}, expected Some({want:?}); stacks {:?} global {:?}", w.stacks, w.global);
                 }
@@ -317,6 +348,7 @@ impl Property for C02 {
             1 => (t.clone(), c.clone()).prop_map(|(t, c)| Op::PanicScope { t, c }),
             2 => (t.clone(), c.clone()).prop_map(|(t, c)| Op::SetGlobal { t, c }),
             8 => (t.clone(), 0u8..4).prop_map(|(t, cs)| Op::Emit { t, cs }),
+            1 => (t.clone(), 0u8..4).prop_map(|(t, cs)| Op::EmitPanic { t, cs }),
             2 => t.clone().prop_map(|t| Op::Query { t }),
             1 => t.prop_map(|t| Op::EndThread { t }),
         ];
@@ -338,7 +370,7 @@ impl Property for C02 {
         run_case(case)
     }
     fn rule(&self) -> String {
-        "histories of <=24 (thorough <=40) ops {Open,Close,PanicScope,SetGlobal,Emit(3 event + 1 span macro callsites),Query,EndThread} over 4 stepped OS threads and 4 recording collectors, one fresh process per history; half of the cases force a SetGlobal strictly inside the history. non-trivial: a thread that used a scope, emitted or queried before the first successful set_global_default later emits with no scope of its own while another thread holds one; distinct by op list".into()
+        "histories of <=24 (thorough <=40) ops {Open,Close,PanicScope,SetGlobal,Emit(3 event + 1 span macro callsites),EmitPanic(collector panics inside the callback, caught),Query,EndThread} over 4 stepped OS threads and 5 dispatchers (3 Dispatch::new recorders, 1 Dispatch::from_static recorder, Dispatch::none()), one fresh process per history; half of the cases force a SetGlobal strictly inside the history. non-trivial: a thread that used a scope, emitted or queried before the first successful set_global_default later emits with no scope of its own while another thread holds one; distinct by op list".into()
     }
     fn assumptions(&self) -> Vec<String> {
         vec![
